@@ -1,5 +1,20 @@
 /-
   Counters identity (C1) of the thread pool: final statements.
+
+  In every reachable state of the repaired model, as long as the pool exists,
+
+      _pushedJobs + A  =  _processedJobs + X + R
+
+  where A = clients that have queued a real job (successful CAS of their push) and not yet executed `runAdd`,
+  X = workers that have claimed a real ticket (successful CAS of their pop) and not yet executed `wAdd`,
+  R = real tickets `x ≥ head` of the push log (vocabulary of `LiveSpawn1`).
+
+  Proof (copy-and-adapt of the terminate-job balance `lse_reach` of LiveShutdown5/6):
+    * `LiveSpawnC1`: `spc_ring_pure` (the count across one `push`/`pop` micro-step for the caller frame),
+      `spc_log_stable` (appending to the push log does not change any X-weight), base/pre-pool frames weigh nothing;
+    * `LiveSpawnC2`: `spcShapeA`, `spcShapeX` (a non-ring frame keeps `pushed + A_t` and `processed + X_t`);
+    * `LiveSpawnC3`: `spc_reach` (induction over `Reach`; the stack side conditions `LseCB`/`LsePayOk` are taken from
+      `lse_reach`, which is where `cfg.repaired = true` is used).
 -/
 import Nstd.Future.LiveSpawnC1
 import Nstd.Future.LiveSpawnC2
@@ -7,5 +22,24 @@ import Nstd.Future.LiveSpawnC3
 set_option linter.unusedSimpArgs false
 set_option linter.unusedVariables false
 namespace Nstd.Future
+
+open LS
+
+/-- (C1) the counters identity -/
+theorem counters_identity {cfg : Config} {s : State} {p : Pool} (hrep : cfg.repaired = true) (hr : Reach cfg s)
+    (hp : s.pool = some p) :
+    p.pushed + tsum s.nthreads (SP.spAAt s)
+      = p.processed + tsum s.nthreads (SP.spXAt p.ring.pushLog s) + SP.spR p.ring.head p.ring.pushLog :=
+  SPC.spc_reach hrep hr p hp
+
+/-- a queued real ticket while no client is between its push and `runAdd`: some job is counted as pushed and not yet
+    as processed -/
+theorem pushed_gt_processed {cfg : Config} {s : State} {p : Pool} (hrep : cfg.repaired = true) (hr : Reach cfg s)
+    (hp : s.pool = some p) (hA : ∀ t, SP.spAAt s t = 0) {x : Nat} (h1 : p.ring.head ≤ x)
+    (h2 : x < p.ring.pushLog.length) (h3 : SP.spReal p.ring.pushLog x = true) : p.processed + 1 ≤ p.pushed := by
+  have hC := counters_identity hrep hr hp
+  have hz : tsum s.nthreads (SP.spAAt s) = 0 := tsum_zero_of (fun u _ => hA u)
+  have hR := SPC.spcR_pos h1 h2 h3
+  omega
 
 end Nstd.Future
